@@ -34,8 +34,11 @@ def segment_lists(rng: random.Random, n: int, min_segments: int = 2):
 def run_real(c):
     p: gen.Params = c["params"]
     scale = 2 if p.dp == 0.5 else 1
-    aligner, chainer, resolver = gen.real_aligner(p)
-    ref, qry = gen.optical_maps(c["ref"], c["qry"], qlen=c["qlen"])
+    from lib import alignlib
+    aligner, chainer, resolver = alignlib.shared_aligner(p)     # one object for all cases, as in the pipeline
+    alignlib._CASE_NO[0] += 1
+    ref, qry = gen.optical_maps(c["ref"], c["qry"], qlen=c["qlen"], qid=5 + 2 * alignlib._CASE_NO[0],
+                                rid=4 + 2 * alignlib._CASE_NO[0])
     from src.correlation.peak import Peak
     segs = []
     for pk in c["peaks"]:
